@@ -137,6 +137,13 @@ def _bitop(op, a, b, node):
     return SymVec(out)
 
 
+class SymNeg:
+    """-x for a bit pattern x with unknown bits: modelled for the one idiom it occurs in, `x & -x`"""
+
+    def __init__(self, vec):
+        self.vec = vec
+
+
 class SymStr(tuple):
     """a text some of whose characters are not known: items are one-character strings or bit symbols ("v", i) (the binary
     digit of an unknown bit).  Produced by formatting a SymVec in binary with an explicit width."""
@@ -356,6 +363,17 @@ class Interp:
         raise AnalysisError(f"minieval: cannot iterate {type(v).__name__} at line {getattr(node, 'lineno', '?')}")
 
     def binop(self, op, a, b, node):
+        if isinstance(a, SymNeg) or isinstance(b, SymNeg):
+            x, n = (a, b) if isinstance(b, SymNeg) else (b, a)
+            if isinstance(op, ast.BitAnd) and isinstance(x, SymVec) and x.bits == n.vec.bits:
+                # x & -x = the lowest set bit of x: decided by the lowest bit of x that is not known to be 0
+                for i, bit in enumerate(x.bits):
+                    if bit == 1:
+                        return 1 << i
+                    if isinstance(bit, tuple):
+                        raise NeedBit(bit[1])
+                return 0
+            raise AnalysisError(f"minieval: `{norm(node)}` negates the unknown value")
         if isinstance(a, TypeRef) and callable(a.attrs.get("__binop__")):
             return a.attrs["__binop__"](type(op).__name__, b)   # (a harness object that defines its own operators)
         if isinstance(a, SymVec) or isinstance(b, SymVec):
@@ -376,6 +394,15 @@ class Interp:
                     bits = (0,) * k + a.bits[:SymVec.WIDTH - k]
                 r = SymVec(bits[:SymVec.WIDTH])
                 return r.concrete() if r.concrete() is not None else r
+            if isinstance(op, (ast.FloorDiv, ast.Mod)) and isinstance(a, SymVec) and isinstance(b, int) and not isinstance(b, bool) \
+                    and b > 0 and b & (b - 1) == 0:
+                # division of a non-negative bit pattern by a power of two is a right shift, the remainder its low bits
+                k = b.bit_length() - 1
+                bits = (a.bits[k:] + (0,) * min(k, SymVec.WIDTH)) if isinstance(op, ast.FloorDiv) else (a.bits[:k] + (0,) * (SymVec.WIDTH - k))
+                r = SymVec(bits[:SymVec.WIDTH])
+                return r.concrete() if r.concrete() is not None else r
+            if isinstance(op, (ast.FloorDiv, ast.Mod)) and isinstance(a, SymVec) and b == 0:
+                raise Raised("ZeroDivisionError", node)
             raise AnalysisError(f"minieval: `{norm(node)}` computes with the unknown value")
         try:
             if isinstance(op, ast.Add) and (isinstance(a, SymStr) or isinstance(b, SymStr)):
@@ -521,9 +548,18 @@ class Interp:
             v = self.ev(e.operand, env)
             if isinstance(v, int) and not isinstance(v, bool):
                 return -v if isinstance(e.op, ast.USub) else ~v if isinstance(e.op, ast.Invert) else v
+            if isinstance(v, SymVec) and isinstance(e.op, ast.USub):
+                return SymNeg(v)   # only meaningful as `x & -x` (the lowest set bit of x)
             raise AnalysisError(f"minieval: `{norm(e)[:60]}` on {type(v).__name__}")
         if isinstance(e, ast.IfExp):
-            return self.ev(e.body if self.truth(self.ev(e.test, env)) else e.orelse, env)
+            t = self.ev(e.test, env)
+            if isinstance(t, SymVec) and isinstance(e.body, ast.Constant) and isinstance(e.orelse, ast.Constant) \
+                    and (e.body.value, e.orelse.value) == ("1", "0"):
+                # `"1" if word & (1 << i) else "0"`: the digit of the one unknown bit the test depends on
+                unk = [b for b in t.bits if isinstance(b, tuple)]
+                if len(unk) == 1 and not any(b == 1 for b in t.bits):
+                    return unk[0]
+            return self.ev(e.body if self.truth(t) else e.orelse, env)
         if isinstance(e, ast.Compare):
             left = self.ev(e.left, env)
             for op, r in zip(e.ops, e.comparators):
